@@ -356,6 +356,7 @@ func boundaryPats(k ref.FKind) []ref.Pat {
 		out = append(out, ref.Pat{Hi: 0x7FF8000000000000}, ref.Pat{Hi: 0xFFF8000000000000}, ref.Pat{Hi: 0x7FF8000000000001}, ref.Pat{Hi: 0x7FF0000000000001, Lo: 5},
 			ref.Pat{Hi: 0x8000000000000000}, ref.Pat{Hi: 0, Lo: 0x8000000000000000})
 	}
+	out = append(out, embeddedBoundaryPats(k)...)
 	return out
 }
 
@@ -380,6 +381,12 @@ func TestBoundaryPatterns(t *testing.T) {
 }
 
 func genPat(rt *rapid.T, k ref.FKind) ref.Pat {
+	if k.Name != "half" && k.Name != "ppc_fp128" && rapid.IntRange(0, 4).Draw(rt, "embedded") == 0 {
+		if p, ok := genEmbedded(rt, k); ok {
+			hx.Hist("embedded-narrower-kind/" + k.Name)
+			return p
+		}
+	}
 	switch k.Name {
 	case "half", "float", "double":
 		fb := uint(k.P - 1)
